@@ -5,7 +5,13 @@ Import ListNotations.
 
 Inductive case :=
 | CFault (root : path) (t : etree) (k : nat) (observed : list event) (errored wrapped : bool)
-| CClean (root : path) (t : option etree) (observed : list event) (errored : bool).
+| CClean (root : path) (t : option etree) (observed : list event) (errored : bool)
+| CFaultSpec (failed_kind : nat) (observed : list event) (outcome : nat).
+   (* upserts that switch a choice case (the editor clears the old case through nested Delete edits,
+      which the frame model does not cover): the requirement on error surfacing is evaluated on the
+      observed callbacks alone.  failed_kind: 0 none/other, 1 the failing callback is Choose on the
+      target, 2 Choose on the source.  outcome: 0 nil, 1 error wrapping the injected one, 2 another
+      error, 3 panic *)
 
 Definition classify (c : case) : verdict :=
   match c with
@@ -15,4 +21,16 @@ Definition classify (c : case) : verdict :=
   | CClean root t observed errored =>
       classify_gen (match t with Some t' => wf_tree root t' && events_eqb (run_clean t') observed | None => false end)
                    (c12_ok root observed errored false) None
+  | CFaultSpec fk observed outcome =>
+      let spec := no_write_after_failure false observed
+                  && (negb (any_failed observed) || Nat.eqb outcome 1) && negb (Nat.eqb outcome 3) in
+      (* known findings, pinned to the defective outcome:
+         1: an error returned by the target's Choose is swallowed by clearOnDifferentChoiceCase (the call returns nil)
+         2: an error returned by Choose to containerMetaList.lookAhead (iterating the source, or the target's old case while it is cleared) makes it panic *)
+      let known := match fk, outcome with
+                   | 1, 0 => Some 1
+                   | 2, 3 | 1, 3 => Some 2    (* lookAhead also iterates the TARGET's old case while clearing it *)
+                   | _, _ => None
+                   end in
+      classify_gen true spec known
   end.
